@@ -26,7 +26,7 @@ META = {
                  "by TLC on the bounded space; every enumerated case replayed into the real function and the recorded calls "
                  "(also of the quantile-division code) decided by TLC",
     "level_text": "Small-scope exhaustive: every non-decreasing sequence of length <= 7 over 4 labels (thorough: <= 11 over 5) x "
-                  "npartitions/chunksize 1..9 (1..12), for int/float/str/datetime indexes (thorough: three of the six input kinds per case, rotating) and through from_pandas; TLC decides the "
+                  "npartitions/chunksize 1..8 (1..12), for int/float/str/datetime indexes (thorough: three of the six input kinds per case, rotating) and through from_pandas; TLC decides the "
                   "contract (locations 0..len strictly increasing, division = label at location, equal labels never split, exact "
                   "npartitions when enough distinct labels) on every recorded call, and proves the same for a PlusCal transcription of "
                   "the loop. Larger random sequences and quantile divisions (non-decreasing, first = min, last = max) are recorded "
@@ -275,7 +275,7 @@ WHAT = {"direct": "sorted_division_locations breaks its contract",
 def run(ctx):
     dd()                      # import dask.dataframe (through the shim) before any fork
     rng = ctx.rng
-    maxlen, alphabet, maxk = ctx.pick((7, 4, 9), (11, 5, 12))
+    maxlen, alphabet, maxk = ctx.pick((7, 4, 8), (11, 5, 12))
     cases = enumerate_cases(ctx, maxlen, alphabet, maxk)
     ctx.extra["cases_enumerated_by_tlc"] = len(cases)
     # spec -> code: every case x every index dtype through the real function
@@ -285,11 +285,11 @@ def run(ctx):
              for i, c in enumerate(cases) for j in range(nk)]
     # ... a sample of them observed through from_pandas
     cands = [c for c in cases if len(c["c"]["seq"]) >= 2]
-    for c in rng.sample(cands, min(ctx.pick(700, 8000), len(cands))):
+    for c in rng.sample(cands, min(ctx.pick(700, 5000), len(cands))):
         items.append((c["c"]["seq"], c["c"]["mode"], c["c"]["k"],
                       rng.choice(["int-index", "float-index", "str-index", "datetime-index"]), "from_pandas"))
     # code -> spec: larger random sorted sequences
-    for _ in range(ctx.pick(4000, 40000)):
+    for _ in range(ctx.pick(2500, 40000)):
         n = rng.randint(maxlen + 1, 60)
         a = rng.randint(1, min(n, 14))
         seq = sorted(rng.randrange(a) for _ in range(n))
@@ -316,7 +316,7 @@ def run(ctx):
         print("NOTE C45: the PlusCal transcription differs from the running code on %d calls (transcription stale; "
               "the contract verdicts do not depend on it)" % mism)
     # quantile divisions
-    qrecs, qskips = quantile_records(quantile_cases(rng, *ctx.pick((1200, 400, 3000), (9000, 3000, 30000))))
+    qrecs, qskips = quantile_records(quantile_cases(rng, *ctx.pick((900, 300, 2500), (6000, 2000, 30000))))
     for r in qrecs:
         ctx.count(("q", r["case"]), len(set(r["data"])) >= 2)
     for s in qskips:
@@ -359,8 +359,8 @@ def replay(ctx, obj):
 
 # ----------------------------------------------------------------------------- selftest
 def selftest(ctx):
-    """Binding demonstration with ONE TLC run: the same small case set (every sorted sequence <= 6 over 3
-    labels x npartitions/chunksize 1..7, a from_pandas sample, quantile cases) is executed on the unmutated
+    """Binding demonstration with ONE TLC run: the same small case set (every sorted sequence <= 5 over 3
+    labels x npartitions/chunksize 1..6, a from_pandas sample, quantile cases) is executed on the unmutated
     code and under each in-memory mutant; all records (tagged) plus corrupted copies of a genuine record
     are decided together."""
     import itertools
@@ -369,8 +369,8 @@ def selftest(ctx):
     import dask.dataframe.dask_expr.io.io as exio
     from dask.dataframe import partitionquantiles as pq
     from dask.dataframe.dask_expr import _quantiles as exq
-    triples = [(list(seq), mode, k) for n in range(1, 7) for seq in itertools.combinations_with_replacement(range(3), n)
-               for mode in ("n", "c") for k in range(1, 8)]
+    triples = [(list(seq), mode, k) for n in range(1, 6) for seq in itertools.combinations_with_replacement(range(3), n)
+               for mode in ("n", "c") for k in range(1, 7)]
     items = [(seq, mode, k, KINDS[i % len(KINDS)], "direct") for i, (seq, mode, k) in enumerate(triples)]
     fp_items = [(seq, mode, k, "int-index", "from_pandas") for seq, mode, k in triples[::9] if len(seq) >= 2][:120]
     qcases = quantile_cases(ctx.rng, 100, 50, 400)
